@@ -117,7 +117,8 @@ class InputDataStorage:
 
         elif args.read_assignments is not None:
             self.input_type = "save"
-            illumina_bam = [[]]
+            # one (empty) list of short-read files per experiment, i.e. per prefix
+            illumina_bam = [[] for _ in args.read_assignments]
             for i, save_file in enumerate(args.read_assignments):
                 sample_files.append([[save_file]])
                 experiment_names.append(self.experiment_prefix + str(i))
